@@ -505,6 +505,13 @@ func TestC28Pool(t *testing.T) {
 		lens, maxprocs := drawShape(t, 40)
 		perts := drawPerts(t, lens)
 		focus := drawFocus(t, append([]int{pFlush, pFlush, pFlush, pSizeEst, pSizeEst}, pOpsBase...))
+		// one case in five concentrates on the clause "reads through GetUnderlying stores see a whole
+		// pool Flush or nothing of it": flushes against reads of the produced stores and of the
+		// handles' NotFlushed* accessors, with fresh data put in between
+		flushVsReads := rapid.IntRange(0, 4).Draw(t, "flushVsReads") == 0
+		if flushVsReads {
+			focus = []int{pFlush, pFlush, pUGet, pUGet, pUGet, pUHas, hPairs, hSize, hPut, hPut}
+		}
 		progs := make([][]pIn, len(lens))
 		descr := make([][]string, len(lens))
 		multi := 0 // Flush / NotFlushedSizeEst calls (each expands into 1+len(names) model operations)
@@ -737,6 +744,9 @@ func TestC28Pool(t *testing.T) {
 		}
 		if cacheRO {
 			cls = append(cls, "readonly_stores_cached")
+		}
+		if flushVsReads {
+			cls = append(cls, "focus_flush_vs_reads")
 		}
 		if multi > 0 {
 			cls = append(cls, "with_pool_flush_or_sizeest")
